@@ -13,25 +13,40 @@ pub(crate) fn whole_nanos(t: &Time) -> u128 {
 
 const NS: u128 = 1_000_000_000;
 
-pub(crate) fn secs_contract(t: &Time) -> u64 {
+/// One nondeterministic split per distinct time value: `secs` and `subsec_nanos` of the same `Time`
+/// must come from the same (s, n) pair (Euclidean division is unique; choosing the pair once spares the
+/// SAT solver from re-deriving that uniqueness through two 128-bit multipliers).
+static mut SPLIT: Option<(u128, u64, u32)> = None;
+
+fn split(t: &Time) -> (u64, u32) {
     let ns = whole_nanos(t);
-    // precondition of `to_num::<u64>()` in the real function (debug: panic, release: wrap)
-    assert!(ns < (1u128 << 64) * NS, "Time::secs: seconds do not fit in u64");
+    unsafe {
+        if let Some((k, s, n)) = SPLIT {
+            if k == ns {
+                return (s, n);
+            }
+        }
+    }
     let s: u64 = kani::any();
     let n: u32 = kani::any();
     kani::assume((n as u128) < NS);
     kani::assume(ns == (s as u128) * NS + n as u128);
-    s
+    unsafe { SPLIT = Some((ns, s, n)) };
+    (s, n)
+}
+
+pub(crate) fn secs_contract(t: &Time) -> u64 {
+    let ns = whole_nanos(t);
+    // precondition of `to_num::<u64>()` in the real function (debug: panic, release: wrap)
+    assert!(ns < (1u128 << 64) * NS, "Time::secs: seconds do not fit in u64");
+    split(t).0
 }
 
 pub(crate) fn subsec_contract(t: &Time) -> u32 {
     let ns = whole_nanos(t);
-    let s: u128 = kani::any();
-    let n: u32 = kani::any();
-    kani::assume((n as u128) < NS);
-    kani::assume(s < (1u128 << 66));
-    kani::assume(ns == s * NS + n as u128);
-    n
+    // harness precondition (all harness times are below 2^63 ns): the unique split exists with s in u64
+    kani::assume(ns < (1u128 << 64) * NS);
+    split(t).1
 }
 
 // ------------------------------------------------------------------------------------------------
